@@ -56,7 +56,7 @@ def alphabet(fam, tier):
         ctxs = ["default", "nolazy", "attach", "skip", "cg", "nochol_root", "vjit"]
     ops = [["predict", c, "m3"] for c in ctxs]
     ops += [["predict", "default", "m1"], ["predict", "default", "b2"], ["predict", "fpv", "m1"]]
-    ops += [["train"], ["eval"], ["step"], ["load", 1], ["load", 0], ["load_partial", 2]]
+    ops += [["train"], ["eval"], ["step"], ["load", 1], ["load", 0], ["load_partial", 2], ["load_child", 2]]
     if not models.is_var(fam):
         ops += [["set_data", 1], ["set_data", 0], ["set_inputs", 2], ["set_targets", 2], ["fantasy"], ["prior"]]
     else:
@@ -198,6 +198,10 @@ class World:
             self.custom_y = y
         elif k == "load":
             m.load_state_dict(models.perturbed_state(self.fam, self.seed, op[1], models.data(self.seed, 0, self.fam)))
+        elif k == "load_child":
+            # load_state_dict called on a CHILD module (the kernel) while the parent holds prediction caches computed from it
+            sd = models.perturbed_state(self.fam, self.seed, op[1], models.data(self.seed, 0, self.fam))
+            m.covar_module.load_state_dict({kk[len("covar_module."):]: v for kk, v in sd.items() if kk.startswith("covar_module.")})
         elif k == "load_partial":
             # only the kernel / mean hyperparameters of another state (strict=False): caches that depend on them live in OTHER modules
             sd = models.perturbed_state(self.fam, self.seed, op[1], models.data(self.seed, 0, self.fam))
@@ -283,6 +287,16 @@ def run_history(cell, seed):
             epoch.add("vjit" if (o[0] == "predict" and o[1] == "vjit") else "std")
             mixed = mixed or len(epoch) == 2
     feats["vjit_mixed_epoch"] = mixed
+    # was a child-level load followed by a prediction without an intervening operation that drops the parent's caches?
+    stale_child, pending = False, False
+    for o in hist + [["predict", "default"]]:
+        if o[0] == "load_child":
+            pending = True
+        elif o[0] in ("train", "load", "load_partial", "set_data", "set_inputs", "set_targets") or (o[0] == "eval" and False):
+            pending = False
+        elif o[0] in ("predict", "backward", "fantasy", "kl", "prior") and pending:
+            stale_child = True
+    feats["child_load_then_eval"] = stale_child
     notes = {}
     sig = "ok"
     for i, op in enumerate(hist):
